@@ -7,7 +7,10 @@
 (* (three-month types), its month (one_month) or 1 (single).               *)
 (*  in.kind = "weights": [type, y, m, tz]   out = [res, nd, w2, colsOk]    *)
 (*     nd: number of distinct weight rows among all hours of that month    *)
-(*  in.kind = "route":   [y, m, tz]         out = [res, nd, code, nnan]    *)
+(*  in.kind = "route":   [y, m, tz, fit]    out = [res, nd, code, nnan]    *)
+(*     fit: "all" - a model for every month; "djf" - models for December,  *)
+(*     January and February only (a short baseline)                        *)
+(*     nd: number of distinct values among the predicted hours of month m; *)
 (*     code: centre month of the fitted model that produced the hours      *)
 (*  in.kind = "bins":    [T, E]             out = [res, bins, exact]       *)
 (*  in.kind = "occ":     [occ, T, Eo, Eu]   out = [res, obins, ubins, exact] *)
@@ -40,6 +43,7 @@ RECURSIVE SumSeq(_, _)
 SumSeq(s, k) == IF k = 0 THEN 0 ELSE SumSeq(s, k - 1) + s[k]
 Zeros(n) == [i \in 1..n |-> 0]
 
+HasModel(in) == in.fit = "all" \/ in.m \in {12, 1, 2}
 Clauses(in, out) ==
   CASE in.kind = "weights" ->
       << <<"SegmentationReturns", out.res = "ok">>,
@@ -47,9 +51,11 @@ Clauses(in, out) ==
          <<"SameWeightsForEveryHourOfTheMonth", out.res = "ok" => out.nd = 1>>,
          <<"FullWeightInOwnMonthHalfInNeighbours", (out.res = "ok" /\ out.nd = 1) => out.w2 = ExpW2(in.type, in.m)>> >>
     [] in.kind = "route" ->
-      << <<"PredictReturns", out.res = "ok">>,
-         <<"EveryHourPredicted", out.res = "ok" => out.nnan = 0>>,
-         <<"PredictedOnlyByOwnMonthsModel", out.res = "ok" => (out.nd = 1 /\ out.code = in.m)>> >>
+      \* a month without a model of its own may come back without values (or the call may raise); it must never carry
+      \* values - those could only come from other months' models
+      << <<"PredictReturns", HasModel(in) => out.res = "ok">>,
+         <<"EveryHourPredicted", (out.res = "ok" /\ HasModel(in)) => out.nnan = 0>>,
+         <<"PredictedOnlyByOwnMonthsModel", out.res = "ok" => IF HasModel(in) THEN (out.nd = 1 /\ out.code = in.m) ELSE out.nd = 0>> >>
     [] in.kind = "bins" ->
       << <<"BinFeaturesReturn", out.res = "ok">>,
          <<"BinsSumToTemperature", out.res = "ok" => (out.exact /\ SumSeq(out.bins, Len(out.bins)) = in.T)>>,
